@@ -21,6 +21,8 @@ RULES = [
     Rule('C17.R5', 'XMI event list: a new event is inserted after the events already queued for its tick (stable order)', 1),
     Rule('C17.R7', 'every move of the XMI source cursor over an IFF chunk body uses the chunk length rounded up to even (the pad byte of odd chunks)', 4),
     Rule('C17.R8', 'every MUS event arm consumes the number of data bytes the DMX format defines; the 8-bit pitch wheel becomes the 14-bit value w * 64', 6),
+    Rule('C17.R9', 'the XMI delay reader adds up bytes until a status byte or the end of the data: no byte-count cap', 1),
+    Rule('C17.R10', 'data-byte rewrites of the XMI event converter apply to controller events only', 1),
     Rule('C17.R6', 'every load starts from the plain-MIDI format; variable-length encoders continue exactly while 7-bit groups remain', 3),
 ]
 EXPLANATION = ('Constant/table extraction from the AST of the converters and of BW_MidiSequencer::parseRMI, compared with the governing format tables encoded in the '
@@ -190,6 +192,8 @@ def analyse(facts, tier):
     obls += r6_format_and_vlq(facts)
     obls += r7_iff_padding(facts)
     obls += r8_mus_event_bytes(facts)
+    obls += r9_xmi_delay_sum(facts)
+    obls += r10_xmi_rewrites(facts)
     return obls
 
 
@@ -476,4 +480,55 @@ def r8_mus_event_bytes(facts):
                 break
     out.append(Obl('C17.R8', fn.name, 'pitch wheel: (bit2 << 7) | bit1 == w * 64 for all 256 w', '%s:%s' % (fn.file, arms[2][0].get('ln')) if arms.get(2) else fn.loc,
                    'discharged' if bad is None else 'finding', why='folded over w = 0..255' if bad is None else bad))
+    return out
+
+
+def r9_xmi_delay_sum(facts):
+    """an XMI delay is the SUM of all consecutive bytes below 0x80 (127 ticks per byte), not a 4-byte variable-length quantity: the
+    loop of xmi2mid_GetVLQ2 may end at a byte with bit 7 set or at the end of the source only; a cap on the loop counter cuts every
+    pause longer than cap * 127 ticks short."""
+    out = []
+    fn = facts.fn('xmi2mid_GetVLQ2')
+    loops = [x for x in walk(fn.tree) if isinstance(x, dict) and x.get('k') in ('ForStmt', 'WhileStmt')]
+    if not loops:
+        raise build.AnalysisBroken('C17.R9: loop of xmi2mid_GetVLQ2 not found')
+    lp = loops[0]
+    iv = None
+    for y in walk(lp.get('inc')):
+        if isinstance(y, dict) and is_incdec(y):
+            iv = strip(y['e']).get('id')
+    capped = None
+    for f in literals(lp.get('cond'), True) if lp.get('cond') is not None else []:
+        if f[0] == 'cmp' and iv is not None and (strip(f[2]).get('id') == iv or strip(f[3]).get('id') == iv):
+            capped = fact_str(f)
+    out.append(Obl('C17.R9', fn.name, 'delay loop condition', '%s:%s' % (fn.file, lp.get('ln')), 'discharged' if capped is None else 'finding',
+                   why='the loop runs until a status byte or the end of the source' if capped is None else
+                   'the loop also stops at %s: an XMI delay is the sum of its bytes, so a pause of more than that many * 127 ticks is cut short and the rest of its bytes is skipped as junk' % capped))
+    return out
+
+
+def r10_xmi_rewrites(facts):
+    """xmi2mid_ConvertEvent handles every channel event.  The rewrites of the first data byte (XMI controller 114 -> bank select LSB,
+    bank 127 -> 0) are defined for controller events: each assignment of a constant to the data byte is guarded by a test of the
+    status high nibble against 0xB; without it key 114, program 114 and bend LSB 114 are rewritten as well."""
+    out = []
+    fn = facts.fn('xmi2mid_ConvertEvent')
+    n = 0
+    for b, j, st in fn.cfg.stmts():
+        ap = assign_parts(st['s'])
+        if not ap or ap[2] != '=' or const_of(ap[1]) is None or strip(ap[0]).get('k') != 'DeclRefExpr' or strip(ap[0]).get('parm'):
+            continue
+        if short(strip(ap[0]).get('n', '')) != 'data':
+            continue
+        n += 1
+        ok = False
+        for f in guard_facts(fn, b, st):
+            nn = cmp_norm(f) if f[0] == 'cmp' else None
+            if nn and nn[0] == '==' and nn[2] == 0xB and any(isinstance(y, dict) and y.get('k') == 'BinaryOperator' and y.get('op') == '>>' and const_of(y.get('r')) == 4 for y in walk(nn[1])):
+                ok = True
+        out.append(Obl('C17.R10', fn.name, 'data = %s' % show(ap[1]), st['loc'], 'discharged' if ok else 'finding',
+                       why='only for status 0xBn' if ok else
+                       'the first data byte is rewritten for every kind of channel event: a note key, program number or bend LSB equal to the controller number is changed too'))
+    if n < 1:
+        raise build.AnalysisBroken('C17.R10: data-byte rewrites of xmi2mid_ConvertEvent not found')
     return out
